@@ -1100,7 +1100,8 @@ Proof.
     assert (ha c fc = items) as HA2 by (unfold ha; rewrite (upd_other _ _ _ _ _ _ NE2); apply upd_same).
     assert (classify (st_traits st) h ha (SetCont x f items de) = if prevented then NoChange else Exact) as CL.
     { cbn [classify]. rewrite HA1. change (items_field f) with fc. rewrite HA2.
-      unfold prevented. destruct (h x f) as [|y ys]; [|reflexivity].
+      unfold prevented. destruct (identity_field f); [reflexivity|].
+      destruct (h x f) as [|y ys]; [|reflexivity].
       destruct items; reflexivity. }
     apply (law_step_from_facts (st_traits st) h (st_regs st) (SetCont x f items de) _ x f eq_refl);
       cbn [ob_out ob_calls ob_delta]; rewrite ?AD.
